@@ -120,6 +120,8 @@ func (pool *CollectorPool) waitStop() {
 	}
 
 	pool.ctxCanceller()
+	// unblock listenRoutine, which waits in Accept
+	pool.listener.Close()
 	pool.wg.Wait()
 	atomic.StoreInt32(&pool.stopped, 1)
 }
